@@ -461,9 +461,9 @@ class Decoder:
         if isinstance(ident, tuple):
             if len(ident) != 2:
                 raise FormatError("bad identifier")
-            key = (ident[0], ident[1])
+            key = (_text(ident[0]), ident[1])
         else:
-            key = ident
+            key = _text(ident)
         if key not in self.reg:
             raise FormatError("record %r before its descriptor" % (key,))
         return key, self.reg[key]
@@ -518,7 +518,8 @@ class Decoder:
         w = _unext(v)
         if isinstance(w, tuple) and w and w[0] == "DESC":
             name, fields = w[1]
-            fields = [(f[0], f[1]) for f in fields]
+            name = _text(name)
+            fields = [(_text(f[0]), _text(f[1])) for f in fields]
             ident = (name, desc_hash(name, fields))
             self.reg[ident] = (name, fields)
             self.reg[name] = (name, fields)
@@ -533,6 +534,11 @@ class Decoder:
             self.events.append(("GROUPED", self.last_keys))
             return o
         raise FormatError("unexpected top-level frame value %r" % (type(v),))
+
+
+def _text(x):
+    """Names may arrive as msgpack bin (older writers): the format's names are UTF-8 text either way."""
+    return bytes(x).decode("utf-8") if isinstance(x, Bin) else x
 
 
 def decode_stream(data, strict=True):
@@ -574,8 +580,9 @@ def enc_dt(o, wide=False):
 
 
 class Encoder:
-    def __init__(self, wide=False, extra_reserved=0, drop_version=False, bare_ident=False):
+    def __init__(self, wide=False, extra_reserved=0, drop_version=False, bare_ident=False, bin_names=False):
         self.wide = wide
+        self.bin_names = bin_names  # names as msgpack bin (what a Python 2 era writer produced for str)
         self.extra = extra_reserved
         self.drop_version = drop_version
         self.bare = bare_ident
@@ -630,8 +637,11 @@ class Encoder:
     def ident(self, o):
         fields = [(f[0], f[1]) for f in o[2]]
         if self.bare:
-            return o[1]
-        return [o[1], desc_hash(o[1], fields)]
+            return self._n(o[1])
+        return [self._n(o[1]), desc_hash(o[1], fields)]
+
+    def _n(self, text):
+        return Bin(text.encode("utf-8")) if self.bin_names else text
 
     def rec_payload(self, o):
         vals = [self.value(v) for _, v in o[3]]
@@ -654,7 +664,7 @@ class Encoder:
         key = (o[1], tuple(tuple(f) for f in o[2]))
         if key not in self.announced:
             self.announced.add(key)
-            self.out.append(frame(mp_encode(Ext(EXT, mp_encode([T_DESC, [o[1], [list(f) for f in o[2]]]], self.wide)), self.wide)))
+            self.out.append(frame(mp_encode(Ext(EXT, mp_encode([T_DESC, [self._n(o[1]), [[self._n(x) for x in f] for f in o[2]]]], self.wide)), self.wide)))
 
     def _announce_in(self, v):
         if v[0] == "rec":
